@@ -276,7 +276,8 @@ impl Cursor<'_> {
     }
 
     fn ident(&mut self) -> Result<TokenKind> {
-        let ident_start = self.abs_pos() - 1;
+        // Start of the current token (callers may have consumed more than one character)
+        let ident_start = self.abs_pos() - self.pos_in_token();
         self.take_while(is_id);
         let ident = self
             .get_range(ident_start..self.abs_pos())
